@@ -6,7 +6,9 @@ the chain list handed to `OpGraph.from_opchains` (sorted (site, OID) pairs, case
 `to_spin_opchain`), the node tables of `MolecularOpGraphNodes` / `SpinMolecularOpGraphNodes` (as copied to the MPO by `copy_nids`),
 the complete explicit graph handed to `MPO.from_opgraph` (`generate_graph` + `_graph_add_term`), operator tables, physical charges,
 and the final graph / bond charges / tensors / `nid_map`, against `PtnModel/Model/Hamiltonian{Mol,MolGraph,SpinGraph}.lean`.
-`molecular_hamiltonian_orbital_gauge_transform` is not modelled: oracle only.
+`molecular_hamiltonian_orbital_gauge_transform`: modelled (`PtnModel/Model/HamiltonianGauge.lean`, driver op `ham.gauge`) and compared exactly
+on the 32 exactly representable monomial 2x2 unitaries (one entry of {1, i, -1, -i} per row and column) and on malformed arguments;
+generic unitaries: numerical stream + oracle.
 Search oracle: property text against an own second-quantised reference (own Jordan-Wigner matrices).
 """
 import itertools, json, time, zlib
@@ -22,7 +24,11 @@ RULE = ('spinless: optimized L=1..8, explicit L=4..8 (+ L=0..3: the documented a
         'Stream "dense-matrix (numeric, property oracle)": the search oracle (both build paths, as_matrix in both formats vs own second-quantised reference) evaluated always on small inputs. '
         'Stream "gauge-transform (numeric, not modelled)": NOT a model comparison -- molecular_hamiltonian_orbital_gauge_transform is not modelled; an always-on numerical test '
         '(tolerance 1e-10 * scale) that v_l, v_r map the explicit MPO of the original coefficients to the explicit MPO of the rotated ones, complex coefficient tensors and complex 2x2 unitaries: '
-        'quick L=7 every pair i, L=8 i=5, one random (L, i) with L in 4..6 per shard; thorough L=4..8 every pair i, three unitaries each')
+        'quick L=7 every pair i, L=8 i=5, one random (L, i) with L in 4..6 per shard; thorough L=4..8 every pair i, three unitaries each. '
+        'Stream "gauge.exact": model comparison (driver op ham.gauge) of v_l, v_r entry by entry, explicit MPO of random dyadic coefficients, every pair i, all 32 monomial unitaries '
+        '(entries in {1, i, -1, -i}), quick L=4..7, thorough L=4..8, plus per L the attributes read from the MPO (nsites, bond_dims, and the bookkeeping predicate wf: every table node '
+        'x[key][k] sits in nid_map on bond k below bond_dims[k], indices on one bond pairwise different); distinct = distinct (L, i, unitary). '
+        'Stream "gauge.malformed": non-unitary u, wrong shapes, i out of range: same exception kind')
 
 KINDS = ['dense', 'dense', 'sparse', 'single', 'symmetric', 'padded', 'one-body', 'two-body', 'ones', 'zero']
 
@@ -230,6 +236,145 @@ def gauge_stream(c, tier, shard, nshards, seed):
                                                'right-pair-block' if (L // 2 + 1 <= i <= L - 3) else 'other-blocks'])
 
 
+# ----------------------------------------------------------------------------- gauge transform: exact model comparison (driver op `ham.gauge`)
+
+def monomial_unitaries():
+    """the 32 exactly representable 2x2 unitaries: one entry of {1, i, -1, -i} per row and column"""
+    out = []
+    ph = [1, 1j, -1, -1j]
+    for perm in (0, 1):
+        for a in ph:
+            for b in ph:
+                u = np.zeros((2, 2), dtype=complex)
+                if perm == 0:
+                    u[0, 0], u[1, 1] = a, b
+                else:
+                    u[0, 1], u[1, 0] = a, b
+                out.append(u if (a.imag or b.imag) else u.real.copy())
+    return out
+
+
+def enc_g(z):
+    z = complex(z)
+    return [enc(z.real), enc(z.imag)]
+
+
+def enc_mat_g(m):
+    m = np.asarray(m)
+    if m.ndim != 2:
+        return [enc_g(x) for x in m.reshape(-1)] if m.size else []
+    return [[enc_g(x) for x in r] for r in m]
+
+
+def dec_mat_g(u):
+    return np.array([[complex(float(frac(x[0])), float(frac(x[1]))) for x in r] for r in u], dtype=complex)
+
+
+GAUGE_TABLES = ['nids_' + f for f in hamlib.FAMS]
+
+
+def gauge_wf(h):
+    """the bookkeeping predicate `GaugeH.wf` of the model, evaluated on the real MPO"""
+    bd = list(h.bond_dims)
+    for name in GAUGE_TABLES:
+        for inner in getattr(h, name).values():
+            for k, nid in inner.items():
+                if nid not in h.nid_map:
+                    return False
+                s, j = h.nid_map[nid]
+                if s != k or not (0 <= s < len(bd)) or not (j < bd[s]):
+                    return False
+    vals = [tuple(int(x) for x in v) for v in h.nid_map.values()]
+    return len(set(vals)) == len(vals)
+
+
+def gauge_impl_call(h, u, i):
+    import pytenet as ptn
+
+    def f():
+        v_l, v_r = with_alarm(120.0, lambda: ptn.molecular_hamiltonian_orbital_gauge_transform(h, u, i))
+        return {'v_l': enc_mat_g(v_l), 'v_r': enc_mat_g(v_r)}
+    return common.py_call(f)
+
+
+def gauge_mpo(spec, L):
+    import pytenet as ptn
+    rng = np.random.default_rng(list(spec))
+    t, v = gen_tensors(rng, L, str(rng.choice(['dense', 'dense', 'sparse', 'symmetric'])), dyadic_draw(rng))
+    return with_alarm(300.0, lambda: ptn.molecular_hamiltonian_mpo(t, v, optimize=False))
+
+
+def gauge_exact_jobs(tier):
+    Ls = range(4, 9) if tier == 'thorough' else range(4, 8)
+    return [(L, i) for L in Ls for i in range(L - 1)]
+
+
+def gauge_exact_stream(c, tier, shard, nshards, seed):
+    jobs = [(k, j) for k, j in enumerate(gauge_exact_jobs(tier)) if k % nshards == shard]
+    mpos = {}
+    for k, (L, i) in jobs:
+        spec = [seed, 79, L]
+        first = L not in mpos
+        if first:
+            mpos[L] = gauge_mpo(spec, L)
+        h = mpos[L]
+        us = monomial_unitaries()
+        cases = [[i, enc_mat_g(u)] for u in us]
+        rep = oglib.drive_retry([{'op': 'ham.gauge', 'L': L, 'cases': cases}])[0]
+        head = {kk: rep.get(kk) for kk in ('ok', 'nsites', 'bond_dims', 'wf', 'err') if kk in rep}
+        c.add({'op': 'ham.gauge', 'L': L, 'cases': [], 'seed_spec': spec},
+              {'ok': True, 'nsites': int(h.nsites), 'bond_dims': [int(x) for x in h.bond_dims], 'wf': gauge_wf(h)}, head,
+              cls=('gauge-head', L), branches=[f'gauge-exact:L={L}'])
+        results = rep.get('results') if isinstance(rep.get('results'), list) and len(rep.get('results')) == len(us) else [None] * len(us)
+        for n, (u, cs, mo) in enumerate(zip(us, cases, results)):
+            im = gauge_impl_call(h, u, i)
+            cplx = bool(np.iscomplexobj(u))
+            br = ['u:' + ('diagonal' if u[0, 0] != 0 else 'antidiagonal'), 'u:' + ('complex' if cplx else 'real'),
+                  'v_l:right-pair-blocks' if (L // 2 + 1 <= i <= L - 3) else 'v_l:no-right-pair-blocks',
+                  'v_r:left-pair-blocks' if (2 <= i + 1 <= L // 2 - 1) else 'v_r:no-left-pair-blocks']
+            if im.get('ok'):
+                br.append('v_l-nontrivial' if any(x != ([1, 0] if a == b else [0, 0]) for a, r in enumerate(im['v_l']) for b, x in enumerate(r)) else 'v_l-identity')
+                br.append('v_r-nontrivial' if any(x != ([1, 0] if a == b else [0, 0]) for a, r in enumerate(im['v_r']) for b, x in enumerate(r)) else 'v_r-identity')
+            c.add({'op': 'ham.gauge', 'L': L, 'cases': [cs], 'seed_spec': spec}, im, mo,
+                  cls=('gauge-exact', L, i, n) if im.get('ok') else None, branches=br)
+            if len(c.samples) and 'reply' in c.samples[-1] and isinstance(c.samples[-1]['reply'], dict) and 'v_l' in c.samples[-1]['reply']:
+                r = c.samples[-1]['reply']
+                c.samples[-1]['reply'] = {'ok': r.get('ok'), 'v_l': f'<{len(r["v_l"])} x {len(r["v_l"])} matrix>', 'v_r': f'<{len(r["v_r"])} x {len(r["v_r"])} matrix>'}
+
+
+def malformed_gauge_args(L):
+    """(u, i, tag): arguments the function rejects"""
+    I2 = np.identity(2)
+    out = []
+    for tag, u in (('upper-triangular', [[1., 1.], [0., 1.]]), ('scaled', [[2., 0.], [0., 1.]]), ('zero', [[0., 0.], [0., 0.]]),
+                   ('rank-one', [[1., 0.], [1., 0.]]), ('projector', [[1., 0.], [0., 0.]]), ('complex-scaled', [[1., 1j], [1j, 1.]]),
+                   ('complex-rank-one', [[1., 1j], [1., 1j]]), ('half', [[0.5, 0.], [0., 0.5]]), ('all-ones', [[1., 1.], [1., 1.]])):
+        for i in (0, L // 2, L - 2):
+            out.append((np.array(u), i, 'non-unitary:' + tag))
+    for tag, u in (('3x3', np.identity(3)), ('2x3', np.array([[1., 0., 0.], [0., 1., 0.]])), ('3x2', np.array([[1., 0.], [0., 1.], [0., 0.]])),
+                   ('1x2', np.array([[1., 0.]])), ('1x1', np.array([[1.]])), ('empty', np.zeros((0, 2)))):
+        out.append((u, 1, 'shape:' + tag))
+    for i in (-1, -2, L - 1, L, L + 3):
+        out.append((I2, i, 'i-out-of-range'))
+        out.append((np.array([[0., 1j], [1., 0.]]), i, 'i-out-of-range'))
+    return out
+
+
+def gauge_malformed_stream(c, tier, shard, nshards, seed):
+    Ls = [L for k, L in enumerate(range(4, 9 if tier == 'thorough' else 8)) if k % nshards == shard]
+    for L in Ls:
+        spec = [seed, 79, L]
+        h = gauge_mpo(spec, L)
+        args = malformed_gauge_args(L)
+        cases = [[int(i), enc_mat_g(u)] for u, i, _ in args]
+        rep = oglib.drive_retry([{'op': 'ham.gauge', 'L': L, 'cases': cases}])[0]
+        results = rep.get('results') if isinstance(rep.get('results'), list) and len(rep.get('results')) == len(args) else [None] * len(args)
+        for (u, i, tag), cs, mo in zip(args, cases, results):
+            im = gauge_impl_call(h, u, int(i))
+            c.add({'op': 'ham.gauge', 'L': L, 'cases': [cs], 'malformed': tag, 'seed_spec': spec}, im, mo,
+                  cls=('gauge-malformed', L, tag, int(i)), branches=['malformed:' + tag.split(':')[0], 'err=' + str(im.get('err'))])
+
+
 def _corr_shard(name, shard, nshards, tier, seed):
     c = Corr(name)
     rng = np.random.default_rng([seed, shard, 7])
@@ -238,6 +383,12 @@ def _corr_shard(name, shard, nshards, tier, seed):
         for r in range(reps):
             jobs.append((m, o, L, r))
     jobs = [j for k, j in enumerate(jobs) if k % nshards == shard]
+    if name == 'gauge.exact':
+        gauge_exact_stream(c, tier, shard, nshards, seed)
+        return c
+    if name == 'gauge.malformed':
+        gauge_malformed_stream(c, tier, shard, nshards, seed)
+        return c
     if name.startswith('gauge-transform'):
         gauge_stream(c, tier, shard, nshards, seed)
         return c
@@ -277,8 +428,11 @@ def _corr_shard(name, shard, nshards, tier, seed):
 
 def correspondence(tier, seed):
     out = [common.parallel_shards(_corr_shard, name, tier, seed)
-           for name in ('molecular', 'molecular.complex', 'dense-matrix (numeric, property oracle)', 'gauge-transform (numeric, not modelled)')]
-    out[-1].notes.append('numerical test of the un-modelled gauge transform against the explicit MPO of the rotated coefficients; not a model comparison')
+           for name in ('molecular', 'molecular.complex', 'dense-matrix (numeric, property oracle)', 'gauge-transform (numeric, not modelled)',
+                        'gauge.exact', 'gauge.malformed')]
+    out[3].notes.append('numerical test of the gauge transform against the explicit MPO of the rotated coefficients (generic unitaries); not a model comparison '
+                        '(the model comparison on exactly representable unitaries is the stream gauge.exact)')
+    out[4].notes.append('exact comparison of v_l, v_r with the Lean model gaugeTransform (driver op ham.gauge) on the 32 monomial unitaries, every pair i')
     return out
 
 
@@ -482,6 +636,18 @@ def case_of_op(op):
         t, v = gen_tensors(np.random.default_rng(spec), op['L'], 'dense', real_draw(np.random.default_rng(spec + [1]), op['complex']))
         pt, pv = pack(t, v)
         return {'model': op['model'], 'L': op['L'], 'kind': 'dense', 'complex': op['complex'], 'tkin': pt, 'vint': pv, 'both_formats': True}
+    if op.get('op') == 'ham.gauge':
+        if not op.get('cases'):
+            return None
+        i, ue = op['cases'][0]
+        try:
+            u = dec_mat_g(ue)
+        except (TypeError, ValueError, IndexError):
+            return None
+        L = int(op['L'])
+        if u.shape != (2, 2) or not np.allclose(u.conj().T @ u, np.identity(2)) or not (0 <= int(i) < L - 1):
+            return None
+        return gauge_case(list(op.get('seed_spec', [0, 79, L])) + [1], L, int(i), u)
     if str(op.get('op', '')).startswith('gauge'):
         u = np.array(op['u'], dtype=float)
         return gauge_case(op['seed_spec'], op['L'], op['i'], u[..., 0] + 1j * u[..., 1])
